@@ -41,6 +41,7 @@ prop(
     id="C12",
     stages=[dict(name="c12", pkg="c12", test="TestC12", access=[], timeout_quick=240, timeout_thorough=2400)],
     ok_pred={"dist": "dist_ok"},
+    check_ok_always=True,
     key=c12_key,
     rule="api.NewDistribution driven in-process with scripted rate and random oracles: kinds none/regular/random/unknown, "
          "intervals below/at/above 100ms incl. ragged ones, N up to 300 (thorough 3000, plus 36000 and 864000), 1-50 consecutive cycles, "
@@ -57,6 +58,7 @@ prop(
     stages=[dict(name="c10", pkg="c10", test="TestC10", access=[], timeout_quick=240, timeout_thorough=2400),
             dict(name="f64", pkg="c10", test="TestF64", access=[], timeout_quick=240, timeout_thorough=2400)],
     ok_pred={"staged": "staged_ok", "ramp": "ramp_ok"},
+    check_ok_always=True,
     rule="CalculateStagedRate / CalculateRampRate (distribution none, jitter 0) on synthetic non-decreasing timestamps: 1-8 stages, "
          "durations 0 (zero-length), 1ns..hours, targets up and down to 1e6, given or default start, 5-60 query times incl. every stage boundary +-1ns "
          "and far beyond the end; ramps up/down over 1s..1000s; stage f64: Go float64 primitives vs the Flocq model on random bit patterns; "
@@ -65,4 +67,19 @@ prop(
                  "int(f) for NaN/out-of-range = -2^63 (amd64)",
                  "times within int64 nanoseconds; time.Time.Sub does not saturate in the generated range",
                  "shape facts of the binary64 interpolation term (interp_facts) are hypotheses of the *_partial theorems; they are checked on the implementation's outputs by the predicate interp_ok"],
+)
+
+
+prop(
+    id="C13",
+    stages=[dict(name="c13", pkg="c13", test="TestC13", access=[], timeout_quick=240, timeout_thorough=2400)],
+    ok_pred={"jitter": "jitter_ok"},
+    check_ok_always=True,
+    rule="api.WithJitter around scripted rate lists (constant, ramps, bursts, zeros, random; lengths 1..200, some 1000-10000), jitter in "
+         "{0,0.5,2,20,50,99,99.9,33.3,...}; the global math/rand source is seeded and mirrored so the model receives the very cos factors as float64 bit patterns; "
+         "exact per-tick equality with the binary64 transcription; non-trivial = jitter != 0; distinct = distinct (jitter, rates, factors) tuples",
+    assumptions=["math.Cos and math/rand are oracles: their values are taken from the run, not modelled",
+                 "rand.Seed seeds the global source deterministically (Go < 1.24 semantics; go1.23.5 here)",
+                 "float64 = IEEE-754 binary64 (see C10 stage f64)",
+                 "the exact-layer theorems assume admissible steps (run_ok); admissibility of the implementation's steps is checked per run by jit_ok, not proved"],
 )
